@@ -62,7 +62,8 @@ impl Check for C12 {
         let policy = *r.pick(&[CutPolicy::TokenAligned, CutPolicy::RandomK, CutPolicy::RandomK, CutPolicy::EveryChar, CutPolicy::FeedLoop, CutPolicy::Mixed, CutPolicy::Mixed]);
         let dp = *r.pick(&[DrainPolicy::AlwaysAll, DrainPolicy::Mixed]);
         let mut tail = gen_events(r, &cfg2, &o2, policy, dp, &mut gs);
-        if let Some(v) = super::draw_volume(r, true) {
+        let (gc, gr) = super::max_geometry(&cfg, &evs);
+        if let Some(v) = super::draw_volume(r, true, gc, gr) {
             // a volume string inside the string under test, in 2-4 pieces (the twin gets one call);
             // without a scrollback limit it is sent to the alternate screen (nothing is retained)
             let mut s = super::volume_string(r, v);
